@@ -5,6 +5,8 @@ mod parser;
 mod parser_error;
 mod syntax;
 mod text;
+#[cfg(emmyluals_emmylua_analyzer_rust_verif)]
+pub mod verif_depth;
 
 pub use kind::*;
 pub use lexer::{LexerConfig, LexerState, LuaLexer, LuaTokenData};
